@@ -51,6 +51,21 @@ impl Token for Tok {
     }
 }
 
+/// a token that keeps the trait's DEFAULT hint methods (no pause, never "not a number part")
+#[derive(Clone, Debug)]
+struct Plain {
+    text: String,
+    lower: String,
+}
+impl Token for Plain {
+    fn text(&self) -> &str {
+        &self.text
+    }
+    fn text_lowercase(&self) -> &str {
+        &self.lower
+    }
+}
+
 /// a token that remembers which input words it was made from (stream rewriting must keep or hand over every token exactly once)
 #[derive(Clone, Debug)]
 struct Prov {
@@ -304,6 +319,14 @@ fn cases(mode: &str) -> Vec<Case> {
                                     }
                                     if occs(&lazy) != occs(&batch) {
                                         return Some(format!("lazy {:?} != batch {:?}", occs(&lazy), occs(&batch)));
+                                    }
+                                    // tokens that keep the trait's default hints behave as tokens that declare "no pause, is a number part"
+                                    if ts.iter().all(|t| !t.nan && !t.pause) {
+                                        let plain: Vec<Plain> = ts.iter().map(|t| Plain { text: t.text.clone(), lower: t.lower.clone() }).collect();
+                                        let dflt = find_numbers(plain.into_iter(), &l, th);
+                                        if occs(&dflt) != occs(&batch) {
+                                            return Some(format!("default hints {:?} != explicit no-hint tokens {:?}", occs(&dflt), occs(&batch)));
+                                        }
                                     }
                                     None
                                 }
